@@ -259,6 +259,7 @@ def run(P: Program, R: Report, tier: str) -> None:
     R.floor("R17.3", "stores into mapping/accumulators", n_store, 8)
     R.floor("R17.1", "removals", n_rem, 4)
     inferred_map_unfiltered(P, R, "R17.7")
+    feature_table_disjoint_from_standard_keys(P, R, "R17.8")
 
     # ---- pipelines: the function(s) that run the matching steps
     pipes = [f for f in mfuncs if sum(1 for c in ast.walk(f.node) if isinstance(c, ast.Call) and (call_name(c) or "").startswith("_match")) >= 2]
@@ -359,3 +360,45 @@ def inferred_map_unfiltered(P: Program, R: Report, rule: str) -> None:
             else:
                 R.undecided(rule, m, r, f"{m.short} returns the inference result as it is", f"return value `{norm(v)[:60]}` not recognised")
     R.floor(rule, "builder methods returning an inferred map", n, 2)
+
+
+def feature_table_disjoint_from_standard_keys(P: Program, R: Report, rule: str) -> None:
+    """The display-name steps match leftover columns against the table of COMPUTED features; the key steps before them
+    match against the standard keys (time, id, parent_id, seg_id, ...).  The two key sets are disjoint: a standard key
+    that is also listed as a computed feature is offered a second time by the display-name steps, which do not skip keys
+    that are already mapped - a second time-like column overwrites mapping['time'] and the first one is lost."""
+    f = next((g for g in P.functions.values() if g.name == "get_default_key_to_feature_mapping"), None)
+    if f is None:
+        R.undecided(rule, "import_export", "", "computed-feature table and standard keys are disjoint", "table builder not found")
+        return
+    lit: dict[str, ast.AST] = {}
+    for x in ast.walk(f.node):
+        if isinstance(x, ast.Dict):
+            for k in x.keys:
+                if isinstance(k, ast.Constant) and isinstance(k.value, str):
+                    lit.setdefault(k.value, x)
+        if isinstance(x, ast.Assign):
+            for t in x.targets:
+                if isinstance(t, ast.Subscript) and isinstance(t.slice, ast.Constant) and isinstance(t.slice.value, str):
+                    lit.setdefault(t.slice.value, x)
+    std: set[str] = set()
+    for ci in [c for c in P.classes.values() if c.name.endswith("TracksBuilder")]:
+        for st in ast.walk(ci.node):
+            if isinstance(st, ast.Assign) and any("required_features" in norm(t) for t in st.targets) and isinstance(st.value, (ast.List, ast.Tuple)):
+                std |= {e.value for e in st.value.elts if isinstance(e, ast.Constant) and isinstance(e.value, str)}
+            if isinstance(st, ast.Call) and isinstance(st.func, ast.Attribute) and st.func.attr in ("extend", "append") and "required_features" in norm(st.func.value):
+                for a in st.args:
+                    for e in (a.elts if isinstance(a, (ast.List, ast.Tuple)) else [a]):
+                        if isinstance(e, ast.Constant) and isinstance(e.value, str):
+                            std.add(e.value)
+    for q, v in P.constants.items():
+        if ".import_export." in q and q.rsplit(".", 1)[-1] in ("SEG_KEY", "TRACK_KEY", "TIME_ATTR") and isinstance(v, ast.Constant) and isinstance(v.value, str):
+            if q.rsplit(".", 1)[-1] != "TRACK_KEY":
+                std.add(v.value)
+    if not std:
+        R.undecided(rule, f, f.node, "computed-feature table and standard keys are disjoint", "standard keys not recognised")
+        return
+    clash = sorted(set(lit) & std)
+    R.check(not clash, rule, f, lit[clash[0]] if clash else f.node, f"{f.name}: no standard key ({sorted(std)}) is listed as a computed feature",
+            f"`{clash[0] if clash else ''}` is both a standard key and an entry of the computed-feature table: the display-name steps offer it again and overwrite the "
+            "column the key steps had assigned", via="table-agreement")
